@@ -142,7 +142,15 @@ pub enum SimUpd {
 
 impl TrackAttributesUpdate<SimAttrs> for SimUpd {
     fn apply(&self, attrs: &mut SimAttrs) -> Result<()> {
-        attrs.env.tick(Cb::Apply, matches!(self, SimUpd::Poison))?;
+        if let Err(e) = attrs.env.tick(Cb::Apply, matches!(self, SimUpd::Poison)) {
+            // a failing update has already scribbled on the attributes (user callbacks are
+            // not transactional): the track must restore them
+            attrs.counter += 100_000;
+            attrs.stamps.push(u32::MAX - 1);
+            attrs.group = attrs.group.wrapping_add(1);
+            attrs.status = 3;
+            return Err(e);
+        }
         apply_upd_model(
             self,
             &mut attrs.group,
@@ -212,7 +220,13 @@ impl TrackAttributes<SimAttrs, SimObs> for SimAttrs {
     }
 
     fn merge(&mut self, other: &SimAttrs) -> Result<()> {
-        self.env.tick(Cb::Merge, other.poison_merge)?;
+        if let Err(e) = self.env.tick(Cb::Merge, other.poison_merge) {
+            // fails half-way: part of the other track's attributes is already mixed in
+            self.stamps.extend_from_slice(&other.stamps);
+            self.stamps.push(u32::MAX - 2);
+            self.counter += 200_000;
+            return Err(e);
+        }
         self.stamps.extend_from_slice(&other.stamps);
         self.counter += other.counter;
         Ok(())
